@@ -2,6 +2,8 @@
 //
 // The legs that run in the NORMAL tiers (Unicode look-alikes and classes, single matches longer than 64 / 256 / 4096 runes)
 // are in legs3.go.
+// Fourth wave, also NORMAL tiers: ASCII control code points in every role (word start / middle / end, under and next to
+// wildcards, in texts) are in legs4.go.
 //
 // The normal tiers use five letters, words of at most ~6 runes and dictionaries of at most nine words. The legs:
 //
